@@ -1,7 +1,7 @@
 """Library-layer parts of the checks (in-process harness)."""
 
-from common import build_harness
-from hrun import run_gen
+from common import build_harness, build_harness_checked
+from hrun import run_gen, run_miri
 
 Q = "quick"
 
@@ -104,3 +104,52 @@ def lib_c20(v, tier, seed):
     run_gen(v, "C20", "drift", seed, n(tier, 600_000, 10_000_000))
     run_gen(v, "C20", "two", seed, n(tier, 400_000, 8_000_000))
     run_gen(v, "C20", "stack", seed, n(tier, 200_000, 3_000_000))
+
+
+# ----------------------------------------------------------------------------
+# sanitizer layers (thorough tier only)
+
+
+def _checked(v, prop, gens, seed):
+    """the same workloads on a build with overflow checks and debug assertions trapping"""
+    b = build_harness_checked()
+    for gen, count, param in gens:
+        run_gen(v, prop, gen, seed + 7, count, param=param, binary=b, build_tag="overflow-checks")
+
+
+def san_c02(v, tier, seed):
+    if tier == Q:
+        return
+    _checked(v, "C02", [("drift", 3_000_000, 3), ("two", 3_000_000, 3), ("place-exhaustive", 10**10, 5)], seed)
+    run_miri(v, "C02", "drift", seed, 60)
+    run_miri(v, "C02", "two", seed, 60)
+
+
+def san_c03(v, tier, seed):
+    if tier == Q:
+        return
+    _checked(v, "C03", [("two", 4_000_000, 3), ("drift", 2_000_000, 3)], seed)
+    run_miri(v, "C03", "two", seed, 80)
+
+
+def san_c04(v, tier, seed):
+    if tier == Q:
+        return
+    _checked(v, "C04", [("stack", 3_000_000, 3), ("two", 3_000_000, 3)], seed)
+    run_miri(v, "C04", "stack", seed, 60)
+
+
+def san_c11(v, tier, seed):
+    if tier == Q:
+        return
+    _checked(v, "C11", [("vocab", 10**10, 4), ("numeric", 10**9, 3), ("mutant", 4_000_000, 3), ("valid", 500_000, 3)], seed)
+    run_miri(v, "C11", "mutant", seed, 80)
+    run_miri(v, "C11", "numeric", seed, 60)
+
+
+def san_c12(v, tier, seed):
+    if tier == Q:
+        return
+    _checked(v, "C12", [("valid", 2_000_000, 3), ("mutant", 3_000_000, 3)], seed)
+    run_miri(v, "C12", "valid", seed, 40)
+    run_miri(v, "C12", "mutant", seed, 80)
